@@ -186,14 +186,14 @@ def run(ctx):
         ctx.current = {"regenerate": "engineered", "n": n, "total": total, "dissim": d}
         check_case(ctx, case)
     # (c) exact arithmetic family
-    for _ in range(ctx.scale(60, 600)):
+    for _ in range(ctx.scale(60, 3000)):
         case = boundary_exact_case(rng)
         ctx.begin_case(case)
         ctx.observe("family", "dyadic-on-the-cut")
         check_case(ctx, case)
     # (a) random
     dspecs = cases.gen_pool_specs(rng, ctx.scale(10, 24))
-    for _ in range(ctx.scale(120, 1500)):
+    for _ in range(ctx.scale(120, 5000)):
         if ctx.out_of_time():
             break
         dspec = rng.choice(dspecs)
